@@ -248,6 +248,11 @@ Definition delivered_as_seq {B} (Lseq Lpar : list (res B)) : Prop :=
   is_prefix (ok_prefix Lpar) (ok_prefix Lseq) /\
   (noerr Lseq = true -> Lpar = Lseq).
 
+(* a consumer that records what it is given and stops as soon as `stopf` says so (first, top(n), present, a reduce
+   that fails ...): any deterministic consumer is of this form *)
+Definition stop_yield {B} (stopf : list (res B) -> bool) (c : list (res B)) (x : res B) : list (res B) * bool :=
+  (c ++ [x], negb (stopf (c ++ [x]))).
+
 (* ---- FilterAuto: MapAuto over (value, accept) containers, the consumer drops the rejected ones ------------- *)
 Section FilterAuto.
 Context {V : Type}.
@@ -277,6 +282,10 @@ Fixpoint seq_filter (items : list (res V)) : list (res V) :=
       | RErr => RErr :: seq_filter r
       end
   end.
+
+(* the same in front of a consumer that stops early: rejected items never reach it *)
+Definition filter_stop_yield (stopf : list (res V) -> bool) (c : list (res V)) (r : res (V * bool)) : list (res V) * bool :=
+  (filter_step c r, match r with ROk (_, false) => true | _ => negb (stopf (filter_step c r)) end).
 
 Definition filter_auto_run (k : nat) (decide : bool) (nw : nat) (sched : list choice) (items : list (res V)) : ma_state :=
   map_auto_run filter_mapper filter_yield k decide nw sched items [].
